@@ -245,9 +245,109 @@ def load_findings(prop: str) -> dict:
 # ----------------------------------------------------------------------------- shrink
 
 
-def default_shrink(case, still_fails, budget=200):
-    """Generic structural shrink: tries module-provided candidates."""
-    return case
+def _paths(x, pre=()):
+    """all (path, value) pairs of a JSON value, parents before children"""
+    yield pre, x
+    if isinstance(x, dict):
+        for k in x:
+            yield from _paths(x[k], pre + (k,))
+    elif isinstance(x, list):
+        for i, v in enumerate(x):
+            yield from _paths(v, pre + (i,))
+
+
+def _get(x, path):
+    for k in path:
+        x = x[k]
+    return x
+
+
+def _set(x, path, v):
+    import copy
+
+    x = copy.deepcopy(x)
+    if not path:
+        return v
+    t = x
+    for k in path[:-1]:
+        t = t[k]
+    t[path[-1]] = v
+    return x
+
+
+def shrink_candidates(case):
+    """Helper for property modules (`shrink_candidates(case)` in a module may wrap this and repair the case's own
+    invariants, e.g. a row count field). Structural shrink candidates of a JSON case, most aggressive first:
+    (a) the same index removed from ALL lists of one length (rows of a data set held column-wise),
+    (b) one element removed from one list, (c) a string of a list/dict value shortened by one token."""
+    lists = [(p, v) for p, v in _paths(case) if isinstance(v, list) and len(v) > 1]
+    by_len = {}
+    for p, v in lists:
+        by_len.setdefault(len(v), []).append(p)
+    for n, ps in sorted(by_len.items(), reverse=True):
+        if len(ps) > 1:
+            for i in range(n - 1, -1, -1):
+                c = case
+                ok = True
+                # deepest paths first so that indices of outer lists stay valid
+                for p in sorted(ps, key=len, reverse=True):
+                    try:
+                        v = _get(c, p)
+                        if isinstance(v, list) and len(v) == n:
+                            c = _set(c, p, v[:i] + v[i + 1:])
+                    except Exception:
+                        ok = False
+                if ok:
+                    yield c
+    for p, v in sorted(lists, key=lambda pv: -len(pv[1])):
+        for i in range(len(v) - 1, -1, -1):
+            yield _set(case, p, v[:i] + v[i + 1:])
+
+
+def shrink_case(mod, case, budget_s=10.0):
+    """Greedy shrink of a case on which the property oracle fails on the implementation.
+    A candidate is kept only if the implementation still runs on it (no harness exception) and the ORACLE still fails:
+    the shrunk replay is therefore a genuine failing input, never an artefact of the shrinker."""
+    t0 = time.time()
+
+    def fails(c):
+        try:
+            o = with_timeout(mod.impl, c)
+        except (Exception, CaseTimeout):
+            return None
+        if isinstance(o, dict) and "harness_exception" in o:
+            return None
+        try:
+            why = mod.oracle(c, o)
+        except Exception:
+            return None
+        return (o, why) if why is not None else None
+
+    def sig(why):
+        # the failure must stay the SAME kind of failure: compare the message with everything but letters removed
+        return re.sub(r"[^A-Za-z]+", "", str(why))[:24]
+
+    gen = getattr(mod, "shrink_candidates", None)
+    if gen is None:  # only modules that know the well-formedness rules of their cases offer candidates
+        return case, None, 0
+    first = fails(case)
+    if first is None:
+        return case, None, 0
+    want = sig(first[1])
+    best = None
+    improved = True
+    steps = 0
+    while improved and time.time() - t0 < budget_s:
+        improved = False
+        for c in gen(case):
+            if time.time() - t0 > budget_s:
+                break
+            steps += 1
+            r = fails(c)
+            if r is not None and sig(r[1]) == want:
+                case, best, improved = c, r, True
+                break
+    return case, best, steps
 
 
 # ----------------------------------------------------------------------------- main check
@@ -348,6 +448,19 @@ def check(prop: str, tier: str, seed: int, replay: str | None = None) -> int:
                     ),
                 )
             )
+    # minimise failing inputs (the original case is kept in the replay as `unshrunk_case`)
+    if not replay and os.environ.get("VERIF_NO_SHRINK") != "1":
+        budget = (10.0 if tier == "quick" else 60.0) / max(1, min(5, len(violations)))
+        for i, (kind, rp) in enumerate(violations[:5]):
+            if kind != "property-fails-on-impl" or "case" not in rp:
+                continue
+            try:
+                small, res, steps = shrink_case(mod, rp["case"], budget)
+            except Exception:
+                continue
+            if res is not None and canonical(small) != canonical(rp["case"]):
+                violations[i] = (kind, dict(rp, unshrunk_case=rp["case"], case=small, impl=res[0], why=res[1],
+                                            model=None, shrink_steps=steps))
     cov["broken"] = broken
     ev["violations"] = len(violations)
     ev["wall_s"] = round(time.time() - t0, 2)
